@@ -44,6 +44,10 @@ type CaseResult struct {
 	NonTrivial bool                   `json:"nontrivial"`
 	Sample     map[string]interface{} `json:"sample,omitempty"`
 	WallMS     int64                  `json:"wall_ms"`
+	// aggregated pseudo cases (function / binary engines): number of evaluations and of non-trivial ones they stand for
+	Evals    int64 `json:"evals,omitempty"`
+	NonTrivN int64 `json:"nontriv_n,omitempty"`
+	FnShard  bool  `json:"fn_shard,omitempty"`
 }
 
 // RunCtx is handed to monitors.
@@ -321,6 +325,8 @@ type checkSpec struct {
 	Rule      string
 	// floors: coverage counters that must be > 0 for the run to count as conclusive
 	Floors []string
+	// FloorMin: counters that must reach at least the given value (e.g. the size of an exhaustively enumerated space)
+	FloorMin map[string]int64
 }
 
 func runSimCheck(spec checkSpec, tier string, seed uint64) int {
@@ -563,6 +569,7 @@ func finishCheck(spec checkSpec, tier string, seed uint64, results []*CaseResult
 	cov := map[string]int64{}
 	status := map[string]int{}
 	nonTrivial := 0
+	evaluations := 0
 	var samples []interface{}
 	type vrec struct {
 		v   Violation
@@ -582,14 +589,29 @@ func finishCheck(spec checkSpec, tier string, seed uint64, results []*CaseResult
 				cov[k] += v
 			}
 		}
-		if r.NonTrivial {
-			nonTrivial++
+		if r.FnShard {
+			evaluations += int(r.Evals)
+			nonTrivial += int(r.NonTrivN)
+		} else {
+			evaluations++
+			if r.NonTrivial {
+				nonTrivial++
+			}
 		}
-		if len(samples) < 3 && r.Sample != nil {
+		if len(samples) < 4 && r.Sample != nil {
 			samples = append(samples, r.Sample)
 		}
-		if r.Status == "panic" || r.Status == "fatal" {
+		if (r.Status == "panic" || r.Status == "fatal") && !r.FnShard {
+			// a run that dies on a valid generated input cannot satisfy a "for every day of every run" property
+			// (and takes every other run of its batch process with it): reported under the property being checked
 			crashes++
+			sig := "crash:" + crashFunc(r.Err)
+			v := Violation{Prop: spec.Prop, Sig: sig, Msg: "run crashed on a valid generated input: " + r.Err}
+			if f := matchFinding(findings, v.Prop, v.Sig); f != nil {
+				known[f.ID] = append(known[f.ID], vrec{v, r})
+			} else {
+				unknown = append(unknown, vrec{v, r})
+			}
 		}
 		for _, v := range r.Violations {
 			if f := matchFinding(findings, v.Prop, v.Sig); f != nil {
@@ -642,6 +664,11 @@ func finishCheck(spec checkSpec, tier string, seed uint64, results []*CaseResult
 			floorMiss = append(floorMiss, fl)
 		}
 	}
+	for k, v := range spec.FloorMin {
+		if cov[k] < v {
+			floorMiss = append(floorMiss, fmt.Sprintf("%s(%d<%d)", k, cov[k], v))
+		}
+	}
 	if exit == 0 {
 		if len(inconclusive) > 0 || len(floorMiss) > 0 || len(results) == 0 || status["timeout"]+status["skipped"] > len(results)/5 {
 			if len(floorMiss) > 0 {
@@ -651,13 +678,14 @@ func finishCheck(spec checkSpec, tier string, seed uint64, results []*CaseResult
 		}
 	}
 	covOut := map[string]interface{}{
-		"evaluations":         len(results),
+		"evaluations":         evaluations,
 		"distinct_nontrivial": nonTrivial,
 		"rule":                spec.Rule,
 		"samples":             samples,
 		"case_status":         status,
 		"counters":            cov,
 		"known_finding_hits":  len(known),
+		"crashed_cases":       crashes,
 		"unknown_violations":  len(reported),
 	}
 	if len(samples) == 0 {
@@ -670,8 +698,22 @@ func finishCheck(spec checkSpec, tier string, seed uint64, results []*CaseResult
 		WallS: time.Since(t0).Seconds(), Violations: len(reported),
 		Assumptions: []string{"generated inputs follow the distributions in DESIGN.md 2.1; the harness oracles are trusted", "verdict holds for the executions observed only"}}
 	writeEvidence(ev)
-	fmt.Printf("%s %s seed=%d: cases=%d nontrivial=%d status=%v violations=%d known=%d wall=%.1fs\n", spec.Prop, tier, seed, len(results), nonTrivial, status, len(reported), len(known), time.Since(t0).Seconds())
+	fmt.Printf("%s %s seed=%d: evaluations=%d nontrivial=%d status=%v violations=%d known=%d wall=%.1fs\n", spec.Prop, tier, seed, evaluations, nonTrivial, status, len(reported), len(known), time.Since(t0).Seconds())
 	return exit
+}
+
+// crashFunc reduces a crash description to a stable signature part (function name, no line numbers)
+func crashFunc(err string) string {
+	if k := strings.Index(err, " | "); k >= 0 {
+		rest := strings.Fields(err[k+3:])
+		if len(rest) > 0 {
+			return rest[0]
+		}
+	}
+	if strings.Contains(err, "worker exit") {
+		return "process_exit"
+	}
+	return "unknown"
 }
 
 func matchFindingByID(fs []Finding, id string) *Finding {
